@@ -45,6 +45,17 @@ func Cred(class string, user bool) string {
 	return base + class
 }
 
+// extOf: some server nonce classes come with extension attributes in the server-first message.
+func extOf(class string) string {
+	switch class {
+	case "printable":
+		return "x=opt"
+	case "long":
+		return "x=opt,y=" + strings.Repeat("z", 40)
+	}
+	return ""
+}
+
 func saltOf(class string, t int) []byte {
 	switch class {
 	case "one":
@@ -145,7 +156,7 @@ func (rn *Runner) runHonest(scRaw interface{}) {
 		}
 		cfg.Auth = func(st *tls.ConnectionState) refsmtp.AuthHandler {
 			h = &refsmtp.HonestAuth{Creds: sasl.Creds{User: su, Pass: sp}, NormUser: normU, NormPass: normP,
-				Salt: saltOf(sc.Salt, rn.T), Iter: iter, NonceSuffix: suffixOf(sc.Suffix, rn.T+n),
+				Salt: saltOf(sc.Salt, rn.T+n-1), Iter: iter, NonceSuffix: suffixOf(sc.Suffix, rn.T+n), Extension: extOf(sc.Suffix),
 				Challenge: fmt.Sprintf("<%d.%d@refsmtp.test>", rn.T, n), TLS: st}
 			return h
 		}
